@@ -40,6 +40,17 @@ func c11Small() *Scenario {
 	s.Actions = streamActions(time.Second)
 	s.Actions = append(s.Actions, timeSteps(800, 700*time.Millisecond, 999_999_999*time.Nanosecond, 30*time.Second, 61*time.Second, 700*time.Second)...)
 	s.Actions = append(s.Actions, aroundZero()...)
+	// block-time gap 0 s: two operations on one stream in the same block
+	two := func(name string, a, b model.Msg) Action {
+		return Action{Name: name, Dt: 700 * time.Millisecond, Txs: func(*model.State) []model.Tx { return []model.Tx{{Msgs: []model.Msg{a}}, {Msgs: []model.Msg{b}}} }}
+	}
+	claim := model.Msg{Kind: model.StrClaim, From: "R1", To: "A"}
+	s.Actions = append(s.Actions,
+		two("claim(R1<-A);claim(R1<-A)", claim, claim),
+		two("claim(R1<-A);update(A->R1,@3)", claim, model.Msg{Kind: model.StrUpdate, From: "A", To: "R1", Rate: 3}),
+		two("update(A->R1,@3);claim(R1<-A)", model.Msg{Kind: model.StrUpdate, From: "A", To: "R1", Rate: 3}, claim),
+		two("topup(A->R1,65nund);claim(R1<-A)", model.Msg{Kind: model.StrTopUp, From: "A", To: "R1", Den: mc.Nund, Amt: "65"}, claim),
+	)
 	return s
 }
 
@@ -101,11 +112,11 @@ func init() {
 			Runs: []Run{
 				{S: c11Small(), Opt: map[Tier]Options{
 					Quick:    {Depth: 4, Budget: 120 * time.Second, ReplayEvery: 4},
-					Thorough: {Depth: 6, Budget: 20 * time.Minute, ReplayEvery: 8, MaxStates: 400000},
+					Thorough: {Depth: 6, Budget: 10 * time.Minute, ReplayEvery: 8, MaxStates: 400000},
 				}},
 				{S: c11Extreme(), Opt: map[Tier]Options{
 					Quick:    {Depth: 4, Budget: 60 * time.Second, ReplayEvery: 4},
-					Thorough: {Depth: 7, Budget: 10 * time.Minute, ReplayEvery: 8, MaxStates: 300000},
+					Thorough: {Depth: 7, Budget: 6 * time.Minute, ReplayEvery: 8, MaxStates: 300000},
 				}},
 			},
 			Owns:        ownsAny("str.release_amount", "str.refund_amount", "str.lastoutflow", "str.zerotime", "str.sustain", "str.deposit"),
